@@ -10,6 +10,8 @@ Verdicts (second half of a driver line):
 
 A failure is described by *atoms* (`W:tcp-urgent-dropped`, `read:tcp.flags:whole-word`, …).  `classify` returns the
 first atom that is not a known finding of the property (so anything new is reported), else the first atom.
+All the defects these atoms were first written for are repaired in /repo (known_findings.json: status fixed), so today
+every atom is reported as a violation; the named atoms only make the class of a regression readable.
 """
 import re
 
@@ -380,9 +382,10 @@ canon = wire.canon_rterr
 # ------------------------------------------------------------------ witnesses
 
 def witness_cases(prop):
-    """the witness line of every known finding of the property: exercised on every run, whatever the generators draw"""
+    """the witness line of every finding of the property, repaired ones included (they are the regression inputs):
+    exercised on every run, whatever the generators draw"""
     return [Case(k["witness"], ("witness", k["key"])) for k in vlib.load_known()
-            if k.get("property") == prop and k.get("status") == "known" and k.get("witness", "").startswith(("pkt ", "addr "))]
+            if k.get("property") == prop and k.get("status") in ("known", "fixed") and k.get("witness", "").startswith(("pkt ", "addr "))]
 
 
 def with_witnesses(ctx, cases):
